@@ -2,6 +2,8 @@
 //! Every random choice derives from one SplitMix64 state.
 pub mod codec;
 pub mod argtext;
+pub mod asmrun;
+pub mod stmtgen;
 use std::io::{self, BufRead, Write};
 
 pub struct Rng(pub u64);
